@@ -206,27 +206,29 @@ def fuelFor (c : Conn) (evs : List (Nat × Label)) : Nat :=
 def runFrom (F : Nat) (c : Conn) (evs : List (Nat × Label)) : Conn :=
   evs.foldl (fun c e => step (advance F e.1 c) e.1 e.2) c
 
-/-- stable merge by time: client actions before server actions at equal times -/
-def merge : List (Nat × Label) → List (Nat × Label) → List (Nat × Label)
-  | [], ys => ys
-  | xs, [] => xs
-  | x :: xs, y :: ys => if x.1 ≤ y.1 then x :: merge xs (y :: ys) else y :: merge (x :: xs) ys
+/-- insert a server action into a time-ordered script: after every action that is not later
+(client actions come first at equal times) -/
+def insertEv (e : Nat × Label) : List (Nat × Label) → List (Nat × Label)
+  | [] => [e]
+  | x :: xs => if x.1 ≤ e.1 then x :: insertEv e xs else e :: x :: xs
 
 /-- one connection through a whole scenario: its client script, `pre_shutdown` at `t0`,
 `shutdown(T)` at `t0 + ds` (`ds` = time taken by the `on_shutdown` handlers), then to quiescence -/
 def runConn (T t0 ds : Nat) (script : List (Nat × Label)) : Conn :=
-  let evs := merge script [(t0, .preShutdown), (t0 + ds, .shutdownStart T)]
+  let evs := insertEv (t0 + ds, .shutdownStart T) (insertEv (t0, .preShutdown) script)
   let F := fuelFor {} evs
   settle F (runFrom F {} evs)
 
 def doneTime (c : Conn) : Option Nat :=
   c.obs.findSome? (fun o => match o with | .done t => some t | _ => none)
 
-/-- when `Server.shutdown` (hence `runner.cleanup`) returns: after the last connection; never
-if some connection never finishes -/
-def returnTime (ts : Nat) (cs : List Conn) : Option Nat :=
-  cs.foldl (fun acc c => match acc, doneTime c with
-    | some a, some d => some (max a d)
-    | _, _ => none) (some ts)
+/-- when `Server.shutdown` (hence `runner.cleanup`) returns: after the last connection
+(`asyncio.gather`), not before it started at `ts`; never if some connection never finishes -/
+def returnTime (ts : Nat) : List Conn → Option Nat
+  | [] => some ts
+  | c :: cs =>
+    match doneTime c, returnTime ts cs with
+    | some d, some r => some (max d r)
+    | _, _ => none
 
 end Aio.C20.Drain
